@@ -50,6 +50,26 @@ func oraclePartial(x *xcase, r *xresult) (bool, string) {
 			end = lowest
 		} else {
 			lowest = -1
+			// nothing is refused inside the file. The transfer then meets the end of the file with one request at the end itself (or at
+			// its start offset when that lies beyond): EOF from an ordinary server - but a server may refuse that request too, and then
+			// that refusal is the lowest point at which anything but data came back (refusals further out do not matter)
+			at := x.flen
+			if x.off > x.flen {
+				at = x.off
+			}
+			if cd, bad := plan[uint64(at)]; bad && (x.api == "writeto" || x.off+x.n > x.flen) {
+				lowest, code = at, cd
+			}
+			// which requests a path sends at and beyond the end differs (a follow-up at the end itself, or only the next chunk on
+			// the grid): without a refusal at `at`, the refusal of a request further out is acceptable where EOF would be - the
+			// delivered bytes and the count are judged all the same, and which of the two it is is the model's business
+			if lowest < 0 {
+				for o, cd := range plan {
+					if int(o) > at && errIsStatus(r.err, cd) {
+						lowest, code = int(o), cd
+					}
+				}
+			}
 		}
 		var want []byte
 		if x.off < x.flen {
@@ -169,6 +189,25 @@ func runC13(c *Ctx) {
 			}
 		}
 	}
+	// reads that reach past the end of the file, with the chunk that lies wholly beyond the end refused (not EOF): the call still
+	// ends at the true end of the file with io.EOF, whatever order the EOF and the refusal arrive in
+	for _, api := range []string{"readat", "read", "writeto"} {
+		for _, p := range []int{2, 3, 4} {
+			for _, be := range []string{"peer", "peerperm", "peerperm", "req"} {
+				for _, tail := range []int{0, 1} {
+					flen := 2*p + tail*(p/2+1)
+					x := &xcase{api: api, p: p, conc: 3, cr: true, cw: false, flen: flen, n: 5 * p, off: 0, maxtx: 32768, src: "opaque", backend: be, regular: true}
+					first := (flen + p - 1) / p * p // the first chunk offset at or beyond the end
+					x.rfail = map[uint64]uint32{uint64(first + p): codes[(p+tail)%3]}
+					if be != "req" {
+						x.rfail[uint64(first+2*p)] = codes[0]
+					}
+					c.Stat("reads_refused_beyond_the_end")
+					one(x)
+				}
+			}
+		}
+	}
 	for count < budget {
 		p := 1 + c.Rng.Intn(4)
 		conc := 1 + c.Rng.Intn(3)
@@ -189,12 +228,8 @@ func runC13(c *Ctx) {
 		if isWriteAPI(x.api) {
 			x.wfail = plan
 		} else {
-			// only offsets inside the file can fail a read (beyond the end the answer is EOF by definition)
-			for o := range plan {
-				if int(o) >= x.flen {
-					delete(plan, o)
-				}
-			}
+			// a server may refuse a read anywhere, also at an offset beyond the end of the file (where another server would say EOF):
+			// the lowest offset at which anything but data came back decides - EOF at the true end if that is lower
 			x.rfail = plan
 		}
 		one(x)
